@@ -222,7 +222,18 @@ def arrays(prog, rep, tag):
         first, mid, last = ws
         d["zero-first"] = q.const_int(first.args[2]) == 0 and q.const_int(first.args[3]) == 0
         sub = pr.of_operand(mid.args[2])
-        d["sub-index-i+1"] = any(x[0] == "call" and x[1].endswith("::next") for x in sub) and has_root(sub, "binop", "Add") and has_root(sub, "const", 1)
+        from_next = any(x[0] == "call" and x[1].endswith("::next") for x in sub)
+        plus_one = has_root(sub, "binop", "Add") and has_root(sub, "const", 1)
+        # or the values are zipped with a counter that starts at 1 (`values.iter().zip(1..)`)
+        zip_from_1 = False
+        for zc in [c for c in b.calls() if (c.decl_s or "").endswith("Iterator::zip")]:
+            for a in zc.args:
+                ra = pr.of_operand(a)
+                if any(x[0] == "agg" and x[1] in ("RangeFrom", "RangeInclusive", "Range") for x in ra):
+                    for bi_, si_, st_ in q.aggregates(b, None):
+                        if st_["rv"].get("ak") == "adt" and (st_["rv"].get("adt") or "").split("::")[-1].startswith("Range") and q.const_int(q.agg_field(st_, "start") or {}) == 1:
+                            zip_from_1 = True
+        d["sub-index-i+1"] = from_next and (plus_one or zip_from_1)
         d["in-loop"] = mid.bb in b.reachable_strict(mid.bb)
         d["count-last"] = q.const_int(last.args[2]) == 0 and has_root(pr.of_operand(last.args[3]), "call", "slice::len") and last.bb not in b.reachable_strict(last.bb) and mid.bb not in b.reachable_strict(last.bb)
         d["order"] = mid.bb in b.reachable_strict(first.bb) and last.bb in b.reachable_strict(mid.bb)
@@ -241,11 +252,10 @@ def arrays(prog, rep, tag):
         d["sub-index-loop-var"] = any(x[0] == "call" and x[1].endswith("::next") for x in pr.of_operand(rs[1].args[2]))
         cap = False
         for cd in q.conds(r):
-            if cd.kind == "cmp" and cd.op in ("Gt", "Le"):
-                rr = pr.of_operand(cd.rhs)
-                if any(x[0] == "const" and "MAX_ENTRIES" in str(x) for x in rr):
-                    le_t = cd.false_target() if cd.op == "Gt" else cd.true_target()
-                    cap = rs[1].bb in q.edge_dominated(r, cd.bb, le_t)
+            e = q.rel_edges(cd, lambda x: has_root(x, "await", "Coe::sdo_read"), lambda x: any(y[0] == "const" and "MAX_ENTRIES" in str(y) for y in x), pr)
+            le_t = e.get("Le")
+            if le_t is not None:
+                cap = rs[1].bb in q.edge_dominated(r, cd.bb, le_t)
         d["capacity-check"] = cap
         ok = all(d.values())
     rep.ob(P, "read-array" + tag, ok, "sdo_read_array: reads the count at sub-index 0, refuses counts above the capacity, then reads sub-indices 1..=count; %s" % d, loc=r.span, how="dataflow")
